@@ -62,6 +62,7 @@ type Exec struct {
 	wireDeps     map[string]bool
 	encLog       map[*Cell][]emission
 	ptrAliases   []ptrAlias
+	valCells     map[string]Val
 	ghosts       map[string]Val
 	split        splitRun
 	AssumedNotes []string
@@ -840,8 +841,24 @@ type edgeState struct {
 }
 
 func (fr *Frame) unrollCount(lp *Loop) int {
+	if lp == nil {
+		return 0
+	}
 	if fr.con != nil {
-		return fr.con.Unroll[lp.Ord]
+		if n := fr.con.Unroll[lp.Ord]; n > 0 {
+			return n
+		}
+		if len(fr.con.Invs[lp.Ord]) > 0 {
+			return 0
+		}
+	}
+	// range loops over a slice/array of small constant length are unrolled automatically
+	for _, phi := range fr.headerPhis(lp) {
+		if phi.Comment == "rangeindex" {
+			if n := fr.rangeLen(lp, phi); n != nil && n.Op == "int" && n.Int.IsInt64() && n.Int.Int64() >= 0 && n.Int.Int64() <= 16 {
+				return int(n.Int.Int64())
+			}
+		}
 	}
 	return 0
 }
